@@ -350,6 +350,24 @@ def run_check(prop: str, fn: Callable[[Ctx], None], level: str, tier: str, repo_
         else:
             new.append(f)
 
+    # thorough tier: mutation adequacy — every breaking variant of this property's self-test corpus that applies to the
+    # tree under analysis must make the check fire on the named instance, every benign twin must leave it silent
+    if tier == "thorough" and replay is None and not new and os.environ.get("SA_NO_ADEQUACY") != "1":
+        try:
+            from .selftest.adequacy import adequacy
+            adq = adequacy(prop, str(repo.root))
+        except Exception as e:  # pragma: no cover
+            print(f"ANALYSIS-ERROR property={prop} mutation-adequacy pass failed: {e}")
+            traceback.print_exc()
+            return 2
+        ctx.extra_cov["mutation_adequacy"] = adq["summary"]
+        ctx.info.append(f"mutation adequacy: {adq['summary']['breaking_fired']}/{adq['summary']['breaking_applied']} breaking variants fire on their instance, "
+                        f"{adq['summary']['benign_silent']}/{adq['summary']['benign_applied']} benign twins silent, {adq['summary']['skipped']} not applicable to this tree")
+        if adq["bad"]:
+            for b in adq["bad"]:
+                print(f"ANALYSIS-ERROR property={prop} self-test variant {b['id']} ({b['expect']}): {b['why']}")
+            return 2
+
     wall = time.time() - t0
     n_inst = sum(len(v) for v in ctx.instances.values())
     print(f"[{prop}] tier={tier} repo={repo.root} rules={len(ctx.rules)} instances={n_inst} "
